@@ -84,6 +84,18 @@ def run(pid, tier):
                 log('[note] weighted-tree trace stops at a %s event (C09/C10 business)' % ev.get('op'))
         else:
             o.traces += s3['events']
+    # WeightedAliasIndex::new on every model vector (TLC-generated, all 13 weight types): verdicts and panics
+    for m in (255, 127):
+        ra = tlc('MCAlias', 'MCAlias.cfg', pid, 'walias_mc_%d' % m, workers=4, env={'M': m, 'MAXLEN': 4, 'EMIT': 1}, timeout=3000, heap='4g',
+                 pipe_to=[str(RDV), 'alias-replay', '--m', str(m), '--no-sweep'])
+        require_ok(ra, 'MCAlias (C04)')
+        o.add_tlc(ra, 'MCAlias M=%d len<=4: vectors replayed for constructor verdicts' % m)
+        sa = json.loads(ra.consumer_out.strip().splitlines()[-1])
+        o.traces += sa['runs']
+        for mm in sa['mismatches']:
+            if mm['what'] in ('verdict', 'new panics'):
+                o.finding(kind='weighted', ctor='WeightedAliasIndex::new', types=mm['type'], verdict=mm['got'][:80], want=mm['want'][:60], behaviour=mm['behaviour'],
+                          signature='walias-replay:%s:%s:%s' % (mm['type'], mm['what'], mm['got'][:40]))
     for gi, (m, types, n) in enumerate([(255, 'u8', 400), (127, 'i8', 400), (1073741824, 'u32,i64,u128,usize', 100), (255, 'f32,f64', 600)]):
         tr = wd / ('walias_%d.ndjson' % gi)
         s4 = rdv(['alias-drive', '--m', m, '--seed', sd + 200 + gi, '--vectors', n if not thorough else n * 8, '--maxlen', 400, '--types', types, '--out', tr])
